@@ -165,6 +165,21 @@ def zero_checks(chk, found):
                 if o[0] != "ok" or any(x != 0.0 for x in o[1]) or len(o[1]) != n:
                     c = {"name": name, "params": {"pref": None}, "J": J, "cat": "zero"}
                     viol(chk, found, c, dt, f"{name} on an all-zero {m}x{n} matrix returned {o[:2]}", {})
+    # with a preference vector: the zero matrix (and a matrix with one zero row) first, then a full-row-rank
+    # matrix on the SAME instance -- the configured vector must come back untouched and the second answer be right
+    for name, orc in (("ConFIG", oracle_config), ("AlignedMTL", oracle_aligned)):
+        for dt in ("f64", "f32"):
+            pref = [F(1), F(2), F(3)]
+            Jz = [[F(0)] * 4 for _ in range(3)]
+            o = A.impl_call(name, {"pref": pref}, Jz, dt)
+            if o[0] != "ok" or any(x != 0.0 for x in o[1]):
+                c = {"name": name, "params": {"pref": pref}, "J": Jz, "cat": "zero"}
+                viol(chk, found, c, dt, f"{name}(pref) on an all-zero 3x4 matrix returned {o[:2]}", {})
+            J1 = [[F(2), F(0), F(1), F(0)], [F(0), F(0), F(0), F(0)], [F(1), F(1), F(0), F(3)]]
+            A.impl_call(name, {"pref": pref}, J1, dt)        # one zero row: any answer, but no side effect
+            Jr = [[F(3), F(-1), F(2), F(0)], [F(1), F(4), F(-2), F(1)], [F(-2), F(1), F(5), F(2)]]
+            orc(chk, {"name": name, "params": {"pref": pref}, "J": Jr, "cat": "after_zero_matrix"}, dt, found)
+            chk.cov["evaluations"] += 3
     chk.count({"zero_matrices": "7 shapes x 3 aggregators x 2 dtypes"}, nontrivial=True)
 
 
